@@ -55,11 +55,18 @@ func (e *Env) rMapsCase(side mapSide, tn string, cs *schema.Case, label string) 
 			if ev.Kind != schema.KMapReg || ev.Guard != "" {
 				continue
 			}
-			if ev.Name == side.fwd && ev.Src == a.src && ev.Expr == a.dst {
-				fwdIdx = i
+			// the last store under a key is the one that stays
+			if ev.Name == side.fwd && ev.Src == a.src {
+				fwdIdx = -1
+				if ev.Expr == a.dst {
+					fwdIdx = i
+				}
 			}
-			if ev.Name == side.back && ev.Src == a.dst && ev.Expr == a.src {
-				backIdx = i
+			if ev.Name == side.back && ev.Src == a.dst {
+				backIdx = -1
+				if ev.Expr == a.src {
+					backIdx = i
+				}
 			}
 		}
 		key := fmt.Sprintf("%s %s: allocation %s registered", label, tn, a.dst)
@@ -159,8 +166,8 @@ func (e *Env) RMaps() {
 					want[ev.Src] = true
 				}
 			}
-			if ev.Kind == schema.KMapReg && ev.Name == "Ast.Nodes" && ev.Src == "out" && ev.Expr == "n" {
-				back = true
+			if ev.Kind == schema.KMapReg && ev.Name == "Ast.Nodes" && ev.Src == "out" {
+				back = ev.Expr == "n" // the last store under the key stays
 			}
 		}
 		for _, k := range sortedKeys(want) {
